@@ -7,7 +7,8 @@ from ..gen import soup
 ID = "C01"
 RULE = ("workloads: golden corpus verbatim x {scss,sass,css}; near-miss mutations of corpus items; token soup; "
         "ill-typed calls of every builtin (names read from the tree); deep shapes; invalid/unreadable bytes for "
-        "entry and imported files; option flags sampled. A case is non-trivial when its input is non-empty and "
+        "entry and imported files; hex escapes of every boundary code point (NUL, surrogate range edges, U+10FFFF, beyond, "
+        "overlong) in every lexical context that decodes escapes; option flags sampled. A case is non-trivial when its input is non-empty and "
         "the compiler returned Ok or Err (i.e. the oracle had something to judge); distinct = distinct "
         "(input, syntax, style, flags) hashes.")
 ASSUMPTIONS = [
@@ -127,6 +128,14 @@ def run(sh):
     if sh.shard == 1:
         specs = [{"text": soup.deep_shape(rng.fork(k), d), "syntax": "scss"} for k in range(24) for d in (50, 200)]
         run_batch(sh, specs, "default-stack-moderate-depth", "R", stack_mb=8)
+
+    # escape stratum: boundary code points x lexical contexts (fixed family, spread over the shards)
+    fam = [{"text": t, "syntax": syn} for t, syn in soup.escape_family()]
+    mine_fam = [s for i, s in enumerate(fam) if i % sh.nshards == sh.shard]
+    for i in range(0, len(mine_fam), 64):
+        run_batch(sh, mine_fam[i:i + 64], "escapes", "R")
+        run_batch(sh, [dict(s) for s in mine_fam[i:i + 64]], "escapes", "D")
+    sh.counters["escape_family_size"] = len(fam) if sh.shard == 0 else 0
 
     round_ = 0
     while not sh.expired():
